@@ -282,7 +282,9 @@ def _get_tangents(vals, direction, coloring=None, argnums=None, trans=None):
     shapes = [tangent.shape[:1] + np.shape(v) for v in leaves]
     tangents = tuple([np.reshape(a, shp) for a, shp in zip(np.split(tangent, inds, axis=1),
                                                            shapes)])
-    if len(leaves) == 1:
+    if len(leaves) == 1 and direction == 'rev':
+        # a single return value is not a tuple, so neither is its cotangent.  In fwd mode, jvp
+        # always requires a tuple of tangents, even for a single argument.
         tangents = tangents[0]
 
     return tangents
